@@ -116,7 +116,9 @@ def main(run):
     r = tie.rng_for(run, "c15")
     quick = run.tier == "quick"
 
-    lines = ["rpc"] + list(vlib.read_corpus("C15"))
+    corpus = list(vlib.read_corpus("C15"))
+    corpus_rpe = [l for l in corpus if l.startswith("rpe")]      # exchanges are handled below
+    lines = ["rpc"] + [l for l in corpus if not l.startswith("rpe")]
     kinds = ["corpus"] * len(lines)
     replay_only = False
     if getattr(run, "replay", None):
@@ -240,7 +242,7 @@ def main(run):
 
     # whole exchanges through the client API (B.1.2 recovery included), with replays and
     # tampered copies of everything the client sent
-    elines = list(G.rpe_cases(quick)) if not replay_only else replay_rpe
+    elines = (corpus_rpe + list(G.rpe_cases(quick))) if not replay_only else replay_rpe
     eo, ecr = run_c(drv, elines)
     conv = [G.parse_rpe(ln, o) for ln, o in zip(elines, eo)]
     mlines = [c[0] for c in conv if c]
